@@ -41,7 +41,7 @@ Proof. vm_compute. reflexivity. Qed.
 
 (* 5. evaluator-wide inertness, on the miniature evaluator of Model/Hole.v (text interpolation, static and
       bound attributes, v-text, v-show, v-if / v-else-if / v-else chains, v-if comparing with a literal,
-      v-for, components included with static, interpolated and bound props and supplied slot content,
+      v-for with and without an index, components with front-matter included with static, interpolated and bound props and supplied slot content,
       slots with fallback - nested arbitrarily, over any table W of component files and any slot closure;
       compared with the engine on concrete data by the "mini" stream): if a template runs to completion
       with opaque HOLES in place of some string values - i.e. no construct inspects their content - then
@@ -51,14 +51,15 @@ Proof. vm_compute. reflexivity. Qed.
       after s was forwarded as a prop (alone or inside an interpolated string) through any depth of
       includes or placed in slot content evaluated inside another component *)
 Theorem C01_hole_parametricity : forall (s : bytes) W fuel c r t d,
+  plain_W W = true ->      (* front-matter is written in the component files: it holds no data value *)
   cons_c s c = true -> cons_e s r = true -> eval W fuel c r t = Ok d ->
   exists d', eval W fuel (sclo s c) (senv s r) t = Ok d' /\ rel s d d'.
-Proof. intros s W fuel c r t d. exact (eval_hole_param s W fuel c r t d). Qed.
+Proof. intros s W fuel c r t d HW. exact (eval_hole_param s W HW fuel c r t d). Qed.
 Print Assumptions C01_hole_parametricity.
 (* the premises are met by a run that forwards a hole through a loop, a bound prop, an interpolated prop
    and slot content; a comparison, or the truthiness of a string assembled around a hole, is reported *)
-Example C01_hole_run_exists : exists d, eval w_demo 7 CNone [(0, VList [VHole true; VStr [x7a]])] t_ok = Ok d.
-Proof. exact inert_case. Qed.
+Example C01_hole_run_exists : plain_W w_demo = true /\ exists d, eval w_demo 7 CNone [(0, VList [VHole true; VStr [x7a]])] t_ok = Ok d.
+Proof. split; [reflexivity|exact inert_case]. Qed.
 Example C01_hole_inspection_reported :
-  eval [[TIf 8 [] []]] 5 CNone [(1, VHole true)] (TInclude 0 [PStatic 8 [Lit [x66]; Var 1]] []) = ErrInspect.
+  eval [([], [TIf 8 [] []])] 5 CNone [(1, VHole true)] (TInclude 0 [PStatic 8 [Lit [x66]; Var 1]] []) = ErrInspect.
 Proof. exact inspected_mixed. Qed.
